@@ -50,6 +50,15 @@ class G36:
     def atom(self):
         return self.r.choice(["T", "{{ f() }}", "{{ af() }}", "{{ f() }}{{ af() }}", "u", "{{ x|default('') }}"])
 
+    def loopctl(self):
+        """a loop control statement for the end of a loop body (sometimes): the loop is left / shortened without an exception"""
+        k = self.r.random()
+        if k < 0.7:
+            return ""
+        if k < 0.85:
+            return "{% if x %}{% break %}{% endif %}"
+        return "{% if not x %}{% continue %}{% endif %}" + self.atom()
+
     def body(self, d, top=False):
         r = self.r
         out = ""
@@ -60,17 +69,17 @@ class G36:
             elif k < 0.5:
                 test = r.choice(["x", "x and f()", "x and af()", "x is odd", "f() and x"])
                 ext = r.choice(["", "{{ loop.index }}", "{{ loop.length }}"])
-                out += "{% for x in xs if " + test + " %}" + ext + self.body(d - 1) + "{% endfor %}"
+                out += "{% for x in xs if " + test + " %}" + ext + self.body(d - 1) + self.loopctl() + "{% endfor %}"
             elif k < 0.53:
-                out += "{% for x in xs %}" + self.body(d - 1) + "{% endfor %}"
+                out += "{% for x in xs %}" + self.body(d - 1) + self.loopctl() + "{% endfor %}"
             elif k < 0.56:
                 # other iterable kinds: an async iterable object, a tuple; with and without a loop filter
                 out += "{% for x in " + r.choice(["axs", "txs"]) + r.choice(["", " if x", " if x and af()"]) + " %}" \
-                    + r.choice(["", "{{ loop.last }}"]) + self.body(d - 1) + "{% endfor %}"
+                    + r.choice(["", "{{ loop.last }}"]) + self.body(d - 1) + self.loopctl() + "{% endfor %}"
             elif k < 0.62 and self.filter_gens:
                 flt = r.choice(["select('odd')", "reject('odd')", "map('string')", "select", "map('abs')|select('odd')"])
                 ext = r.choice(["", "{{ loop.index }}"])
-                out += "{% for x in xs|" + flt + " %}" + ext + self.body(d - 1) + "{% endfor %}"
+                out += "{% for x in xs|" + flt + " %}" + ext + self.body(d - 1) + self.loopctl() + "{% endfor %}"
             elif k < 0.64:
                 out += ("{% for n in tree if n.v recursive %}{{ n.v }}" + self.atom() + "{% if n.c %}{{ loop(n.c) }}{% endif %}"
                         + "{% endfor %}")
@@ -151,6 +160,10 @@ FIXED = [
     {"main.html": "{% if f() %}{% extends 'mid.html' %}{% endif %}{% block b %}c1{{ af() }}c2{% endblock %}",
      "mid.html": "{% extends 'base.html' %}{% block a %}m1{{ super() }}m2{% endblock %}",
      "base.html": "B1{% block a %}ba{% endblock %}B2{% block b %}bb1{{ f() }}bb2{% endblock %}B3"},
+    # loops left by break / shortened by continue: filtered, extended, nested, and recursive with a filter
+    {"main.html": "{% for x in xs if x %}[{{ x }}{{ f() }}{% if x == 2 %}{% break %}{% endif %}{{ af() }}]{% endfor %}"
+                  "{% for x in xs if x is odd %}{{ loop.index }}{% continue %}{{ f() }}{% endfor %}"
+                  "{% for y in xs %}{% for x in xs if x %}{{ x }}{% break %}{% endfor %}{{ f() }}{% endfor %}z"},
     # a block nested in a block, overridden in the child: the consumer stops inside the nested block
     {"main.html": "{% extends 'base.html' %}{% block n0 %}N1{{ af() }}N2{{ f() }}N3{% endblock %}",
      "base.html": "B1{% block b0 %}o1{% block n0 %}i{% endblock %}o2{{ f() }}{% endblock %}B2"},
@@ -338,7 +351,7 @@ def run_op(jinja2, loop, templates, src_dir, op, k, entry):
         from jinja2.nativetypes import NativeEnvironment
         from jinja2.sandbox import SandboxedEnvironment
         ecls = {"s": SandboxedEnvironment, "n": NativeEnvironment}.get(ENV_KIND[0], jinja2.Environment)
-        env = ecls(loader=jinja2.FunctionLoader(lambda n: (templates[n], n, lambda: True) if n in templates else None), enable_async=True)
+        env = ecls(extensions=["jinja2.ext.loopcontrols"], loader=jinja2.FunctionLoader(lambda n: (templates[n], n, lambda: True) if n in templates else None), enable_async=True)
         _ENVS[key] = (env, Tracker(env, templates, src_dir), templates)
     env, tr0, _keepalive = _ENVS[key]
     tr = Tracker(env, templates, src_dir)
@@ -430,7 +443,7 @@ def run(ctx):
     loop = asyncio.new_event_loop()
     all_sites = {}
     pending = []
-    n_sets = ctx.size(130, 800)
+    n_sets = ctx.size(130, 300)
     try:
         for ti in range(n_sets):
             ts = FIXED[ti] if ti < len(FIXED) else G36(ctx.rng, filter_gens=(ti % 4 == 3)).template_set()
